@@ -37,7 +37,9 @@ func (s upStep) String() string {
 		return fmt.Sprintf("pkt#%d(%s)", s.Cand, s.Pkt)
 	case "drop":
 		return fmt.Sprintf("drop#%d", s.Cand)
-	case "conformant", "probeEarly":
+	case "heldProbeBurst":
+		return fmt.Sprintf("heldProbeBurst(%s,probe+%s+upgrade)", s.Tr, s.Pkt)
+	case "conformant", "probeEarly", "conformantSendAtTick":
 		return fmt.Sprintf("%s(%s,repoll=%d)", s.Kind, s.Tr, s.N)
 	case "conformantLatePoll":
 		return fmt.Sprintf("conformantLatePoll(%s,+%v,repoll=%d)", s.Tr, s.D, s.N)
@@ -65,7 +67,10 @@ func genC08(rt *rapid.T, gates bool, knownProbe bool, col *Collector) upCase {
 		l := fmt.Sprintf("s%d", i)
 		kinds := []string{"open", "open", "open", "send", "clientMsg", "poll", "advance"}
 		if rapid.IntRange(0, 7).Draw(rt, l+".conf") == 0 {
-			kinds = append(kinds, "conformant", "conformantLatePoll")
+			kinds = append(kinds, "conformant", "conformantLatePoll", "conformantSendAtTick")
+		}
+		if gates {
+			kinds = append(kinds, "heldProbeBurst")
 		}
 		if ncand > 0 {
 			kinds = append(kinds, "pkt", "pkt", "pkt", "pkt", "drop", "toTimeout")
@@ -101,7 +106,11 @@ func genC08(rt *rapid.T, gates bool, knownProbe bool, col *Collector) upCase {
 			st.Tr = rapid.SampledFrom(trs).Draw(rt, l+".tr")
 			st.Sid = rapid.SampledFrom([]string{"own", "own", "own", "own", "unknown", "closed"}).Draw(rt, l+".sid")
 			ncand++
-		case "conformant", "probeEarly", "conformantLatePoll":
+		case "heldProbeBurst":
+			st.Tr = rapid.SampledFrom(trs).Draw(rt, l+".tr")
+			st.Pkt = rapid.SampledFrom([]string{"pingOther", "pong", "message", "noop", "garbage"}).Draw(rt, l+".burst")
+			ncand++
+		case "conformant", "probeEarly", "conformantLatePoll", "conformantSendAtTick":
 			st.Tr = rapid.SampledFrom(trs).Draw(rt, l+".tr")
 			st.D = time.Duration(rapid.SampledFrom([]int{0, 50, 100, 150, 250, 1000}).Draw(rt, l+".late")) * time.Millisecond
 			st.N = rapid.SampledFrom([]int{0, 0, 1, 2}).Draw(rt, l+".repoll")
@@ -355,7 +364,7 @@ func runC08(c upCase) (fail string, stats map[string]bool) {
 	}
 	uw.pc, uw.sr = pc, w.Get(pc.Sid)
 	for _, st := range c.Steps {
-		if st.Kind == "probeEarly" {
+		if st.Kind == "probeEarly" || st.Kind == "heldProbeBurst" {
 			uw.g = InstallGates(nil)
 			defer uw.g.Uninstall()
 			break
@@ -374,6 +383,13 @@ func runC08(c upCase) (fail string, stats map[string]bool) {
 
 	latePoll := time.Duration(-1)
 	rePolls := 0
+	// a slow application flush listener (armed by conformantSendAtTick): the session's flush holds its lock longer
+	lingerFlush, sendAtTick := false, false
+	uw.sr.Sock.On("flush", func(...any) {
+		if lingerFlush {
+			linger()
+		}
+	})
 	conformant := func(tr string, early bool) string {
 		if uw.sessClosed {
 			return ""
@@ -440,6 +456,20 @@ func runC08(c upCase) (fail string, stats map[string]bool) {
 		if len(r) == 0 || r[len(r)-1].Type != tPong || string(r[len(r)-1].Data) != "probe" {
 			return fmt.Sprintf("conformant %s candidate: probe ping not answered with a probe pong (candidate received %v)", tr, r)
 		}
+		if sendAtTick && pc.Poll != nil {
+			// the application sends at the very instant of the server's next poll-release tick, and its flush takes
+			// its time: whichever of the two gets the pending poll, the other must leave it alone
+			stats["send-at-the-release-tick"] = true
+			lingerFlush = true
+			defer func() { lingerFlush = false }()
+			p := msgT(fmt.Sprintf("down%d at the tick", len(uw.sentDown)))
+			uw.sentDown = append(uw.sentDown, p)
+			go func() {
+				time.Sleep(100 * time.Millisecond)
+				w.AppSend(uw.sr, p, nil, false, 0)
+			}()
+		}
+		sendAtTick = false
 		// wait for the pending poll to be released with a noop
 		before := len(pc.Recv)
 		if late >= 0 {
@@ -518,6 +548,64 @@ func runC08(c upCase) (fail string, stats map[string]bool) {
 			if f := conformant(st.Tr, true); f != "" {
 				return what + ": " + f, stats
 			}
+		case "conformantSendAtTick":
+			rePolls, sendAtTick = st.N, true
+			if f := conformant(st.Tr, false); f != "" {
+				return what + ": " + f, stats
+			}
+		case "heldProbeBurst":
+			// the candidate does not wait for the probe pong: probe, an unexpected packet and the upgrade packet
+			// arrive while the pong is still being written (its writer goroutine is held at its first statement)
+			if uw.sessClosed {
+				break
+			}
+			site := map[string]string{"websocket": "ws.send.start", "webtransport": "wt.send.start"}[st.Tr]
+			cand := uw.openCand(st.Tr, "own")
+			if !cand.admitted {
+				break
+			}
+			gp := GatePoint{site, uw.g.Count(site)}
+			uw.g.mu.Lock()
+			uw.g.plan[gp] = true
+			uw.g.mu.Unlock()
+			cand.send(ctlD(tPing, "probe"))
+			Settle()
+			held := false
+			for _, p := range uw.g.Parked() {
+				if p == gp {
+					held = true
+				}
+			}
+			switch st.Pkt {
+			case "pingOther":
+				cand.send(ctlD(tPing, "x"))
+			case "pong":
+				cand.send(ctl(tPong))
+			case "message":
+				cand.send(msgT("on the candidate"))
+			case "noop":
+				cand.send(ctl(tNoop))
+			default:
+				if cand.wc != nil {
+					cand.wc.SendMessage(Frame{Data: []byte("9?")}, nil)
+				} else {
+					cand.tc.SendFrameRaw(wtEncode(false, []byte("9?")))
+				}
+			}
+			cand.send(ctl(tUpgrade))
+			Settle()
+			uw.g.mu.Lock()
+			delete(uw.g.plan, gp)
+			uw.g.mu.Unlock()
+			uw.g.Release(gp)
+			Settle()
+			if held {
+				stats["burst-while-probe-pong-is-being-written"] = true
+			}
+			// the unexpected packet ended the attempt: only the candidate pays; the upgrade packet behind it is void
+			cand.probed = true
+			uw.fail(cand)
+			stats["candidate-failed.unexpected-packet"] = true
 		case "conformantLatePoll":
 			latePoll, rePolls = st.D, st.N
 			if f := conformant(st.Tr, false); f != "" {
@@ -730,7 +818,7 @@ func runC08(c upCase) (fail string, stats map[string]bool) {
 
 func TestC08Upgrade(t *testing.T) {
 	col := NewCollector("TestC08Upgrade",
-		"rapid: a polling session (revision 3/4) and 2-12 steps: open a websocket/webtransport candidate for the session's own, an unknown or a closed sid (also while another candidate is being entertained or after an upgrade), send on a candidate one of {probe ping, other ping, pong, message, upgrade, noop, undecodable frame}, drop a candidate, advance to a candidate's upgrade timeout -1ms/0/+1ms, a complete conformant upgrade (probe, wait for the probe pong, wait for the pending poll to be released, optionally poll again 1-2 times and wait for each release, upgrade), application sends, client messages, polls, time advances, Close(true) of the session; gated variant: the client's probe arrives while the server sits between creating the candidate transport and attaching its listeners; oracle (reference model of the statement): the transport name changes only when an own-sid candidate sent upgrade, at most once; Upgrading() is true exactly while a candidate is entertained; refused/failed/timed-out candidates are closed by the server and nothing else is; the session never closes; messages in both directions are delivered in order exactly once across the switch; afterwards a conformant upgrade still succeeds and traffic flows. non-trivial: a script that reaches the probe and then fails, or application messages carried across a switch").Use(t)
+		"rapid: a polling session (revision 3/4) and 2-12 steps: open a websocket/webtransport candidate for the session's own, an unknown or a closed sid (also while another candidate is being entertained or after an upgrade), send on a candidate one of {probe ping, other ping, pong, message, upgrade, noop, undecodable frame}, drop a candidate, advance to a candidate's upgrade timeout -1ms/0/+1ms, a complete conformant upgrade (probe, wait for the probe pong, wait for the pending poll to be released, optionally poll again 1-2 times and wait for each release, upgrade), application sends, client messages, polls, time advances, Close(true) of the session; gated variant: the client's probe arrives while the server sits between creating the candidate transport and attaching its listeners; a candidate sends probe, an unexpected packet and the upgrade packet in one burst while the probe pong is still being written; an application Send lands at the very instant of the poll-release tick with a slow flush listener; oracle (reference model of the statement): the transport name changes only when an own-sid candidate sent upgrade, at most once; Upgrading() is true exactly while a candidate is entertained; refused/failed/timed-out candidates are closed by the server and nothing else is; the session never closes; messages in both directions are delivered in order exactly once across the switch; afterwards a conformant upgrade still succeeds and traffic flows. non-trivial: a script that reaches the probe and then fails, or application messages carried across a switch").Use(t)
 	knownProbe := isKnown("C08", sigProbeLost)
 	for _, gated := range []bool{false, true} {
 		rapid.Check(t, func(rt *rapid.T) {
@@ -756,10 +844,11 @@ func TestC08Upgrade(t *testing.T) {
 			}
 		})
 	}
-	req := []string{"conformant-upgrade.websocket", "conformant-upgrade.webtransport", "candidate-refused.unknown", "candidate-refused.closed", "second-candidate-or-already-upgraded", "candidate-failed.unexpected-packet", "candidate-failed.drop", "candidate-failed.timeout", "upgrade-after-probe", "later-upgrade-succeeds", "session-closed-mid-history", "poll-again-during-upgrade", "poll-arrives-after-the-probe"}
+	req := []string{"conformant-upgrade.websocket", "conformant-upgrade.webtransport", "candidate-refused.unknown", "candidate-refused.closed", "second-candidate-or-already-upgraded", "candidate-failed.unexpected-packet", "candidate-failed.drop", "candidate-failed.timeout", "upgrade-after-probe", "later-upgrade-succeeds", "session-closed-mid-history", "poll-again-during-upgrade", "poll-arrives-after-the-probe", "send-at-the-release-tick"}
 	if !knownProbe {
 		req = append(req, "probe-before-listeners")
 	}
+	req = append(req, "burst-while-probe-pong-is-being-written")
 	col.RequireClasses(t, req...)
 }
 
